@@ -42,7 +42,7 @@ BaseFields ==
 BaseWorld ==
   [ sdl     |-> SdlHead \o "type Canine implements Animal " \o SdlTail,
     register |-> <<>>,                       \* <<Go type, GraphQL type>> pairs for Root.RegisterType
-    scan    |-> <<"Canine", "Cat", "Other", "Query">>,     \* object types in Root.types order (by name)
+    scan    |-> <<"Query", "Canine", "Cat", "Other">>,     \* object types in Root.types order (Query first, then by name)
     objs    |-> {"schema", "Query", "Canine", "Cat", "Other"},
     ifaces  |-> [schema |-> {}, Query |-> {}, Canine |-> {"Animal"}, Cat |-> {"Animal"}, Other |-> {}],
     members |-> [Thing |-> <<"Canine", "Cat">>],
